@@ -25,3 +25,7 @@ open SamVerif.Opt
 #print axioms tripcount_exact
 #print axioms tripcount_final_value
 #print axioms tripcount_declines_wrapping_loops
+#print axioms dce_preserves
+#print axioms dce_div_must_stay
+#print axioms licm_no_new_trap
+#print axioms licm_div_hoist_counterexample
